@@ -229,10 +229,10 @@ Proof.
 Qed.
 
 (* ---------- the statement ---------- *)
-Definition ring_symbols (s : str) (compat : bool) : nat := ring_symbols_in (tokenize_all s compat).
+Definition ring_symbol_count (s : str) (compat : bool) : nat := ring_symbols_in (tokenize_all s compat).
 
 Theorem ring_pairs_le_symbols capf s compat attribute m :
-  decode_graph_c capf s compat attribute = Ok m -> (length (ring_pairs m) <= ring_symbols s compat)%nat.
+  decode_graph_c capf s compat attribute = Ok m -> (length (ring_pairs m) <= ring_symbol_count s compat)%nat.
 Proof.
   unfold decode_graph_c. intro E.
   destruct (derive_frags_c capf attribute (tokenize_all s compat) empty_mol [] 0) as [[m1 rings]|] eqn:Ed; cbn [bind] in E; [|discriminate].
@@ -242,5 +242,5 @@ Proof.
   unfold ring_pairs. fold (rkeys m2).
   apply Nat.le_trans with (length (map (fun r => key_of (r_l r) (r_r r)) rings)).
   - apply NoDup_incl_length; [apply NoDup_nodup|]. intros k Hk. apply nodup_In in Hk. now apply Hincl.
-  - rewrite map_length. cbn [length] in Hlen. unfold ring_symbols. lia.
+  - rewrite map_length. cbn [length] in Hlen. unfold ring_symbol_count. lia.
 Qed.
